@@ -376,6 +376,7 @@ class Unit:
             node.setdefault('files', []).append(f)
         self.emit("// GENERATED by tools/vx.py from %s — do not edit" % os.path.relpath(self.unit_path, HERE), ('gen',))
         self.emit("#![allow(mismatched_lifetime_syntaxes, unused_imports, dead_code, unused_variables, unused_mut, unused_assignments, non_snake_case, unused_parens, unused_braces, unreachable_patterns, unreachable_code)]", ('gen',))
+        self.emit("#![feature(allocator_api)]", ('gen',))
         self.emit("use vstd::prelude::*;", ('gen',))
         self.emit("verus! {", ('gen',))
         self.emit("global size_of usize == 8;", ('gen',))
